@@ -128,6 +128,19 @@ def run_case(case, ctx):
         if name == "HUBER":
             # skip points within a few finite-difference steps of the kink |x - m| = threshold
             skip = np.abs(np.abs(x - m) - par) < 5e-3 * np.maximum(1.0, np.abs(m))
+        if name == "HUBER":
+            # exactly on the kink |x - m| = threshold the loss is still differentiable (both branches have the slope -2 * threshold *
+            # sign(x - m) there): the handle is judged at ties built from exactly representable numbers
+            mt = np.array([1.0, -2.0, 0.5, 3.25, -0.75, 8.0])
+            par_ = float(par)
+            for sgn in (1.0, -1.0):
+                xt = mt + sgn * par_
+                tie = np.abs(xt - mt) == par_
+                if tie.any():
+                    gt = np.asarray(gh(xt[tie].copy(), mt[tie].copy()), dtype=float)
+                    ctx.check(bool(np.all(np.abs(gt - (-2.0 * par_ * sgn)) <= 1e-12 * max(1.0, par_))), "gradient_handle", "NOT-THE-DERIVATIVE",
+                              f"HUBER(par={par}): at |x - m| == threshold (x - m = {sgn * par_}) the gradient handle gives {gt.tolist()}, the slope there is {-2.0 * par_ * sgn}",
+                              frac="ties", at_kink=True)
         g0 = np.asarray(gh(np.zeros_like(x), m), dtype=float)
         scale = np.abs(g0) + np.abs(dref - g0) + np.abs(dref)
         tol = (1e-8 if name != "HUBER" else 1e-5) * scale + 1e-300
@@ -372,6 +385,17 @@ def run_case(case, ctx):
                 flag = np.insert(np.concatenate([np.ones(len(crng), dtype=bool), np.zeros(len(wts) - nz_ - len(crng), dtype=bool)]), at, False)
                 crng = np.flatnonzero(flag)
             ctx.feat(zero_weight_samples=zero_w)
+            scattered = bool(rng.integers(0, 2))
+            if scattered:
+                # the draws in any order: the corrected ones are then scattered over the sample (gaps between them hold ordinary draws)
+                # and are listed in no particular order
+                flag_ = np.zeros(len(wts), dtype=bool)
+                flag_[crng] = True
+                p_ = rng.permutation(len(wts))
+                subs, vals, wts, flag_ = subs[p_], vals[p_], wts[p_], flag_[p_]
+                crng = np.flatnonzero(flag_)
+                crng = crng[rng.permutation(len(crng))]
+            ctx.feat(scattered_correction=scattered)
             re = ctx.call("estimate", estimate, M, subs.copy(), vals.copy(), wts.copy(), fh, gh, False, crng.copy())
             if not re.ok:
                 ctx.check(False, "estimate", "RAISE:" + type(re.exc).__name__, f"{type(re.exc).__name__}: {re.exc} | {re.tb}", semistrat=True)
